@@ -562,6 +562,7 @@ def run_spec(spec, R, timeout=20.0):
         for prog in programs:
             e = O.Env.__new__(O.Env)
             e.context = env.context
+            e._context2 = env.context2  # the second shared context is shared the same way
             e.tools = {}
             e.prepare([byname[nm] for nm in prog if not nm.startswith("import:")])
             envs.append(e)
